@@ -96,18 +96,27 @@ def run(ctx):
             ctrl.add(b)
     mm_disc = ctx.facts().enum_discr('game::Action', 'MakeMove')
 
-    def body_guards(blk):
+    def lits_of(conj):
         out = []
-        for g in guards(s, blk):
-            if g['blk'] not in L['blocks'] or g['cond'] is None:
+        for g in conj:
+            if g['cond'] is None:
                 continue
             c = norm(g['cond'])
-            if c[0] == 'discr' and c[1] == norm(L['next']['result']):
+            if c[0] == 'discr' and c[1] in (norm(L['next']['result']), ELEM):
                 continue
-            if c[0] == 'discr' and c[1] == ELEM:
-                continue
-            out.append((classify(g['cond'], None, MV), truth(g), g))
+            out.append((classify(g['cond'], None, MV), g['truth'], g))
         return out
+
+    def body_dnf(blk):
+        return [lits_of(conj) for conj in dnf(s, blk, within=L['blocks'])]
+
+    def body_guards(blk):
+        """literals common to every way of reaching blk inside one loop iteration"""
+        ds = body_dnf(blk)
+        if not ds:
+            return []
+        common = [(n_, tv, g) for (n_, tv, g) in ds[0] if all(any(n2 == n_ and t2 == tv for n2, t2, _ in d) for d in ds[1:])]
+        return common
 
     # --- R1 / R2: stores to the counter inside the loop
     zero = []
@@ -125,18 +134,18 @@ def run(ctx):
     else:
         ctx.violation('C11.R2', KEY + ':init', 'counter does not start at 0 (%s)' % sh(init, 60), w)
     for st in zero:
-        gs = body_guards(st['blk'])
-        names = [(n_, tv) for n_, tv, _ in gs]
-        positive = [n_ for n_, tv in names if tv is True and n_ in ('pawn-move', 'capture')] + \
-                   [n_ for n_, tv in names if tv is False and n_ == 'not-capture']
-        foreign = [n_ for n_, tv in names if n_ not in ('pawn-move', 'capture', 'not-capture')]
-        if positive and not foreign:
-            ctx.ok('C11.R1', 'counter reset caused by %s' % positive[0], where(body, st['line']))
-        else:
-            cause = foreign[0] if foreign else 'no pawn-move/capture condition'
-            ctx.violation('C11.R1', '%s:reset:%s' % (KEY, cause.split(':')[0]),
-                          'the fifty-move counter is reset under a condition other than pawn move or capture: %s' % cause,
-                          where(body, st['line']))
+        for gs in body_dnf(st['blk']):
+            names = [(n_, tv) for n_, tv, _ in gs]
+            positive = [n_ for n_, tv in names if tv is True and n_ in ('pawn-move', 'capture')] + \
+                       [n_ for n_, tv in names if tv is False and n_ == 'not-capture']
+            foreign = [n_ for n_, tv in names if n_ not in ('pawn-move', 'capture', 'not-capture')]
+            if positive:
+                ctx.ok('C11.R1', 'counter reset caused by %s' % positive[0], where(body, st['line']))
+            else:
+                cause = foreign[0] if foreign else 'no pawn-move/capture condition'
+                ctx.violation('C11.R1', '%s:reset:%s' % (KEY, cause.split(':')[0]),
+                              'the fifty-move counter is reset under a condition other than pawn move or capture: %s' % cause,
+                              where(body, st['line']))
     if not zero:
         ctx.violation('C11.R1', KEY + ':no-reset', 'the counter is never reset inside the replay loop', w)
     ctx.floor('C11.R1', 'counter resets inside the replay loop', len(zero), 2)
@@ -189,14 +198,14 @@ def run(ctx):
         if c['blk'] not in L['blocks']:
             ctx.violation('C11.R4', KEY + ':clear-outside', 'the repetition list is cleared outside the replay loop', where(body, c['line']))
             continue
-        gs = body_guards(c['blk'])
-        pos = [n_ for n_, tv, _ in gs if (tv is True and n_ in ('pawn-move', 'capture', 'rights-changed')) or (tv is False and n_ == 'not-capture')]
-        foreign = [n_ for n_, tv, _ in gs if n_.startswith('other')]
-        if pos and not foreign:
-            ctx.ok('C11.R4', 'list cleared on an irreversible event (%s)' % pos[0], where(body, c['line']))
-        else:
-            ctx.violation('C11.R4', KEY + ':clear:' + (foreign[0].split(':')[0] if foreign else 'unconditional'),
-                          'the repetition list is cleared under %s' % (foreign or 'no irreversible-event condition'), where(body, c['line']))
+        for gs in body_dnf(c['blk']):
+            pos = [n_ for n_, tv, _ in gs if (tv is True and n_ in ('pawn-move', 'capture', 'rights-changed')) or (tv is False and n_ == 'not-capture')]
+            foreign = [n_ for n_, tv, _ in gs if n_.startswith('other')]
+            if pos:
+                ctx.ok('C11.R4', 'list cleared on an irreversible event (%s)' % pos[-1], where(body, c['line']))
+            else:
+                ctx.violation('C11.R4', KEY + ':clear:' + (foreign[0].split(':')[0] if foreign else 'unconditional'),
+                              'the repetition list is cleared under %s' % (foreign or 'no irreversible-event condition'), where(body, c['line']))
     # --- R3 repetition search
     reps = []
     for st in s.stores:
